@@ -130,7 +130,7 @@ def work(task):
 
 def run(tier):
     res = Result(PID)
-    N = 7 if tier == "quick" else 9
+    N = 8 if tier == "quick" else 9
     rnd = random.Random(seed())
     allf = [f for n in range(1, N + 1) for f in F.forests(n)]
     rnd.shuffle(allf)
